@@ -332,6 +332,60 @@ func batchC15(res *h.Result, r *rand.Rand) {
 	if leader.IsPermanentError(nil) || leader.IsTransientError(nil) {
 		addViol(res, "C15", "nil", "nil-classified", "nil is classified as an error")
 	}
+	// deep and wide nesting ("arbitrary nesting of %w"): an interruption (cancellation, deadline,
+	// TimeoutError) is transient however many layers wrap it and whatever their texts say -
+	// also texts that contain the words the classifier looks for; an identity-permanent
+	// error (configuration, permission, missing bucket) stays permanent under neutral layers
+	for _, depth := range []int{1, 8, 15, 16, 17, 18, 33, 64, 300} {
+		for li := 0; li < 6; li++ {
+			var leaf node
+			switch li {
+			case 0:
+				leaf = node{context.Canceled, "context.Canceled", map[kind]bool{kTransient: true}}
+			case 1:
+				leaf = node{context.DeadlineExceeded, "context.DeadlineExceeded", map[kind]bool{kTransient: true}}
+			case 2:
+				leaf = node{leader.NewTimeoutError("refresh", time.Second, nil), "TimeoutError", map[kind]bool{kTransient: true}}
+			case 3:
+				leaf = node{leader.ErrInvalidConfig, "ErrInvalidConfig", map[kind]bool{kPermanent: true}}
+			case 4:
+				leaf = node{leader.ErrPermissionDenied, "ErrPermissionDenied", map[kind]bool{kPermanent: true}}
+			default:
+				leaf = node{leader.ErrBucketNotFound, "ErrBucketNotFound", map[kind]bool{kPermanent: true}}
+			}
+			for _, hostileText := range []bool{false, true} {
+				if hostileText && leaf.kinds[kPermanent] {
+					continue
+				}
+				for _, wide := range []bool{false, true} {
+					err := leaf.err
+					for d := 0; d < depth; d++ {
+						txt := neutralText(r)
+						if hostileText {
+							txt = permPatterns[(d+li)%len(permPatterns)]
+						}
+						if wide && d%3 == 2 {
+							// a join whose other members are neutral
+							err = errors.Join(errors.New(neutralText(r)), err, errors.New(neutralText(r)))
+						} else {
+							err = fmt.Errorf("%s: %w", txt, err)
+						}
+					}
+					p, tr := leader.IsPermanentError(err), leader.IsTransientError(err)
+					res.Evals++
+					res.Obs["c15.deep_chains"]++
+					desc := fmt.Sprintf("%s under %d layers (hostile text=%v, joins=%v)", leaf.desc, depth, hostileText, wide)
+					if p == tr {
+						addViol(res, "C15", "exclusive-total", fmt.Sprintf("both=%v:deep:%s", p, leaf.desc), fmt.Sprintf("IsPermanentError=%v IsTransientError=%v for %s", p, tr, desc))
+					} else if leaf.kinds[kTransient] && !tr {
+						addViol(res, "C15", "documented-class", "transient-kind-classified-permanent:"+leaf.desc+":deep", "documented transient error classified permanent: "+desc)
+					} else if leaf.kinds[kPermanent] && !p {
+						addViol(res, "C15", "documented-class", "permanent-kind-classified-transient:"+leaf.desc+":deep", "documented permanent error classified transient: "+desc)
+					}
+				}
+			}
+		}
+	}
 	for i := 0; i < n; i++ {
 		nd := genTree(r, 4)
 		p, tr := leader.IsPermanentError(nd.err), leader.IsTransientError(nd.err)
